@@ -137,17 +137,60 @@ func hostC20(o *out, replay string) {
 	for i := 0; i < extra; i++ {
 		seeds = append(seeds, base.next()%1000000)
 	}
+	closeOnly, closeReplay := false, ""
 	if replay != "" {
-		_, kv := kvLine(replay)
+		tag, kv := kvLine(replay)
 		if s, err := strconv.ParseUint(kv["seed"], 10, 64); err == nil {
 			seeds = []uint64{s}
+		}
+		if strings.TrimPrefix(tag, "!") == "C20.close" {
+			closeOnly, closeReplay = true, replay
 		}
 	}
 	sigCount := map[string]int{}
 	sigSample := map[string]string{}
 	sigSeed := map[string]uint64{}
 	totalReports, foreign := 0, 0
+	// race detector reports of one process tree (the host process and every plugin subprocess log to <prefix>.<pid>)
+	collect := func(logPrefix string, seed uint64) {
+		files, _ := filepath.Glob(logPrefix + ".*")
+		for _, f := range files {
+			data, err := os.ReadFile(f)
+			if err != nil {
+				continue
+			}
+			for _, rep := range splitRaceReports(string(data)) {
+				totalReports++
+				sig, ok := raceSignature(rep)
+				if !ok {
+					foreign++
+					o.note("race report without go-plugin frames (harness or dependency): %s", strings.ReplaceAll(tailStr(headStr(rep, 700), 700), "\n", " | "))
+					continue
+				}
+				sigCount[sig]++
+				if _, seen := sigSample[sig]; !seen {
+					sigSample[sig] = rep
+					sigSeed[sig] = seed
+				}
+			}
+		}
+	}
 	for i, seed := range seeds {
+		// broker Close racing in-flight streamer Sends: a process of its own (a panic in a library goroutine
+		// must cost that scenario only, and be reported as its result); quick tier: first seed only
+		if i == 0 || tier() == "thorough" {
+			closePrefix := filepath.Join(work, fmt.Sprintf("raceclose-%d", i))
+			sel := closeReplay
+			if sel == "" && (tier() != "thorough" || i > 0) {
+				// multiplexed rounds cost seconds each (a knock whose ack never comes waits for its 5 s timer): thorough tier, first seed
+				sel = "C20.close mux=0"
+			}
+			c20RunClose(o, bin, work, seed, closePrefix, sel)
+			collect(closePrefix, seed)
+		}
+		if closeOnly {
+			continue
+		}
 		logPrefix := filepath.Join(work, fmt.Sprintf("race-%d", i))
 		cmd := exec.Command(bin, "host", "C20race")
 		cmd.Dir = work
@@ -205,28 +248,7 @@ func hostC20(o *out, replay string) {
 				o.emit(fmt.Sprintf("!C20.run seed=%d", seed), "err", "FAIL:race-run-crashed")
 			}
 		}
-		// race detector reports of the host process and of every plugin subprocess
-		files, _ := filepath.Glob(logPrefix + ".*")
-		for _, f := range files {
-			data, err := os.ReadFile(f)
-			if err != nil {
-				continue
-			}
-			for _, rep := range splitRaceReports(string(data)) {
-				totalReports++
-				sig, ok := raceSignature(rep)
-				if !ok {
-					foreign++
-					o.note("race report without go-plugin frames (harness or dependency): %s", strings.ReplaceAll(tailStr(headStr(rep, 700), 700), "\n", " | "))
-					continue
-				}
-				sigCount[sig]++
-				if _, seen := sigSample[sig]; !seen {
-					sigSample[sig] = rep
-					sigSeed[sig] = seed
-				}
-			}
-		}
+		collect(logPrefix, seed)
 	}
 	// a report with one unrecoverable stack ("failed to restore the stack": method "-") is counted with a
 	// complete report on the same field that involves the same method, if this run produced one
